@@ -192,8 +192,11 @@ def check(run, ctx):
             if (r.short, k.key) in seen:
                 continue
             seen.add((r.short, k.key))
+            same_func = {k2.key for k2 in CF.section_key_reads(L, r) if k2.func == k.func and "root" in k2.key}
             if k.key in written:
                 run.ok(S5, f"{r.short}[{k.key}]", "written by the orchestrator")
+            elif same_func & written:
+                run.ok(S5, f"{r.short}[{k.key}]", f"legacy fallback next to {sorted(same_func & written)} in the same lookup", nontrivial=False)
             else:
                 run.finding(S5, f"{r.short}[{k.key}]", "key-never-written", f"{k.func} reads metadata[{k.key!r}] but the orchestrator writes {sorted(written)}: the value is never there and the rule falls back to guessing from the file path", k.loc)
     run.extra["call_resolution"] = f"{cg.n_resolved}/{cg.n_calls}"
